@@ -604,7 +604,12 @@ class JSONRPCConnection:
         return self._protocol.response_message(error, request_id)
 
     def _receive_response(self, result, request_id):
-        if request_id not in self._requests:
+        try:
+            known = request_id in self._requests
+        except TypeError:
+            # An unhashable ID (JSONRPCv1 accepts any JSON value) cannot be one of ours
+            known = False
+        if not known:
             if request_id is None and isinstance(result, RPCError):
                 message = f'diagnostic error received: {result}'
             else:
